@@ -1,19 +1,25 @@
-"""Per-property registration data for MANIFEST.json (tools/gen_manifest.py)."""
+"""Registration data for MANIFEST.json: every checks/Cnn.py that defines REGISTRY is claimed."""
+import importlib
+import os
 
-CLAIMED = {
-    "C12": {
-        "level": "proof",
-        "technique": "Coq proof over a Gallina model of langid.rs + differential correspondence (coqc vm_compute vs compiled langid.rs)",
-        "text": "Theorems C12_supported/C12_preference/C12_default/C12_lossy/C12_spec (Props/C12.v) hold for every supported list and "
-                "every request list over an abstract subtag carrier (no bound). The model is tied to /repo by running filter_matches, "
-                "find_match and Locale::find_locale (langid.rs compiled by #[path]) on thousands of generated cases and evaluating "
-                "the Coq spec predicate on the implementation's answers.",
-        "design_ref": "DESIGN.md §5 C12",
-        "note": "Trusted: Coq kernel + vm_compute; hand-written model Runtime/Langid.v (tied by the correspondence run); icu_locid "
-                "LanguageIdentifier parsing is an oracle; Python generator; Rust harness h_rt. No axioms (Print Assumptions: closed).",
-        "engine": "coq-langid",
-    },
-}
-
-PENDING_REASON = "not claimed yet: model, theorems and correspondence harness for this property are still being built (see DESIGN.md §5)"
 ALL = ["C%02d" % i for i in range(1, 21)]
+PENDING_REASON = ("not claimed yet: model, theorems and correspondence harness for this property are still being built "
+                  "(see DESIGN.md §5)")
+NA = {}
+# properties whose check is finished and registered in MANIFEST.json (edited by the lead only)
+ENABLED = ["C12"]
+CLAIMED = {}
+for pid in ENABLED:
+    if os.path.exists(os.path.join(os.path.dirname(os.path.abspath(__file__)), pid + ".py")):
+        m = importlib.import_module("checks." + pid)
+        if getattr(m, "REGISTRY", None):
+            CLAIMED[pid] = m.REGISTRY
+
+
+def packages():
+    seen = []
+    for pid in ALL:
+        for p in CLAIMED.get(pid, {}).get("packages", []):
+            if p not in seen:
+                seen.append(p)
+    return seen
